@@ -20,6 +20,13 @@ let f_cmd nd np ins copy code dc =
     (int_of_n r) (int_of_n ix) (int_of_z off) (int_of_n (cmd_copy_len c)) (int_of_n (cmd_copy_len_code c))
     (int_of_n nb) (string_of_n v)
 
+let f_recmd nd0 np0 nd1 np1 ins copy code dc =
+  let c = command_new (n_of_int nd0) (n_of_int np0) (n_of_int ins) (n_of_int copy) (n_of_int code) (n_of_int dc) in
+  let c = recompute_distance_prefix (n_of_int nd0) (n_of_int np0) (n_of_int nd1) (n_of_int np1) c in
+  let r = restore_distance_code c.dist_prefix_ c.dist_extra_ (n_of_int nd1) (n_of_int np1) in
+  Printf.sprintf "%d %d %d %d %d | %d"
+    (int_of_n c.insert_len_) (int_of_n c.copy_len_) (int_of_n c.dist_extra_) (int_of_n c.cmd_prefix_) (int_of_n c.dist_prefix_) (int_of_n r)
+
 (* ---- executable specification (coq/spec/RfcTables.v) applied to an answer of the implementation ---- *)
 let ri f c = int_of_n (f (n_of_int c))
 let denotes base extra c v = c >= 0 && c < 24 && ri base c <= v && v < ri base c + (1 lsl (ri extra c))
@@ -49,6 +56,19 @@ let () = iter_lines (fun line ->
   | ["blen"; n] -> print_endline (f_blen (i n))
   | ["pdist"; dc; nd; np] -> print_endline (f_pdist (i dc) (i nd) (i np))
   | ["cmd"; nd; np; ins; copy; code; dc] -> print_endline (f_cmd (i nd) (i np) (i ins) (i copy) (i code) (i dc))
+  | ["recmd"; nd0; np0; nd1; np1; ins; copy; code; dc] ->
+    print_endline (f_recmd (i nd0) (i np0) (i nd1) (i np1) (i ins) (i copy) (i code) (i dc))
+  | ["S"; "recmd"; nd0; np0; nd1; np1; ins; copy; code; dc; il; cl; de; cp; dp; "|"; r] ->
+    (* after the change of parameters the command must denote, under the NEW parameters and the RFC's tables, the
+       distance it was built from; insert length, copy length word and command symbol as built *)
+    let (nd0, np0, nd1, np1, ins, copy, code, dc) = (i nd0, i np0, i nd1, i np1, i ins, i copy, i code, i dc) in
+    let (il, cl, de, cp, dp, r) = (i il, i cl, i de, i cp, i dp, i r) in
+    let c0 = command_new (n_of_int nd0) (n_of_int np0) (n_of_int ins) (n_of_int copy) (n_of_int code) (n_of_int dc) in
+    let explicit = int_of_n c0.cmd_prefix_ >= 128 && int_of_n (cmd_copy_len c0) <> 0 in
+    let c1 = il = int_of_n c0.insert_len_ && cl = int_of_n c0.copy_len_ && cp = int_of_n c0.cmd_prefix_ in
+    let c2 = if explicit then (s_pdist dc nd1 np1 dp de = "OK") && r = dc
+             else dp = int_of_n c0.dist_prefix_ && de = int_of_n c0.dist_extra_ in
+    print_endline (ok (c1 && c2) (Printf.sprintf "re-encoded command fields kept=%b distance=%b" c1 c2))
   | ["S"; "ins"; n; c] -> print_endline (s_ins (i n) (i c))
   | ["S"; "copy"; n; c] -> print_endline (s_copy (i n) (i c))
   | ["S"; "blen"; n; c; nb; e] -> print_endline (s_blen (i n) (i c) (i nb) (i e))
